@@ -3,10 +3,11 @@
 tier=$1; shift
 here=$(cd "$(dirname "$0")/.." && pwd)
 cd "$here" || exit 2
+mkdir -p .work
 for s in "$@"; do
   for i in 01 02 03 04 05 06 07 08 09 10 11 12 13 14 15 16 17 18 19 20; do
-    VERIF_SEED=$s ./check "C$i" --tier "$tier" > ".work/sweep_$s_$i.log" 2>&1
+    VERIF_SEED=$s ./check "C$i" --tier "$tier" > ".work/sweep_${s}_$i.log" 2>&1
     rc=$?
-    echo "seed=$s C$i rc=$rc $(grep -c '^VIOLATION' ".work/sweep_$s_$i.log") $(grep -E '^VIOLATION' ".work/sweep_$s_$i.log" | head -2 | cut -c1-200)"
+    echo "seed=$s C$i rc=$rc $(grep -c '^VIOLATION' ".work/sweep_${s}_$i.log") $(grep -E '^VIOLATION' ".work/sweep_${s}_$i.log" | head -2 | cut -c1-200)"
   done
 done
